@@ -311,3 +311,15 @@ Example ex_incr_form : incr_form (B "s") [B "DecrBy"; B "s"; B "3"] (-3).
 Proof. apply (IF_decrby _ _ _ 3); reflexivity. Qed.
 Example ex_view : view ex_db 1000 (B "s") = Some (VStr (B "10"), Some 1500) /\ view ex_db 1500 (B "s") = None.
 Proof. split; reflexivity. Qed.
+
+(* ---------------------------------------------------------------- unconditional (Mem/AllInv.v)
+   every family of [families] preserves db_wf, so C01_refines_any_family needs no hypothesis *)
+Require Mem.AllInv.
+
+Theorem C01_every_family_wf_pres : Forall family_wf_pres families.
+Proof. exact AllInv.families_wf_pres. Qed.
+Print Assumptions C01_every_family_wf_pres.
+
+Theorem C01_refines_all_families : forall prog d, db_wf d -> Forall step_conforms (run d prog).
+Proof. exact (refines_families AllInv.families_wf_pres). Qed.
+Print Assumptions C01_refines_all_families.
